@@ -42,11 +42,16 @@ type script struct {
 	ViaLND bool `json:"via_lnd,omitempty"`
 	// ViaHTTP: the requests go through the mint's HTTP handler and the answers are read from its JSON
 	ViaHTTP bool `json:"via_http,omitempty"`
+	// MPP: the quote is for a part of the invoice (NUT-15): the mint pays through PayPartialAmount
+	MPP bool `json:"mpp,omitempty"`
 }
 
 func (s script) String() string {
 	var b strings.Builder
 	fmt.Fprintf(&b, "pay=%s", s.Pay)
+	if s.MPP {
+		b.WriteString("(mpp)")
+	}
 	if s.First != lnmodel.StTruth {
 		fmt.Fprintf(&b, ",melt-lookup=%s", s.First)
 	}
@@ -88,6 +93,8 @@ func enumerate(maxLen int) []script {
 				for _, tail := range []string{"", "swap_melt", "melt_swap"} {
 					out = append(out, script{Pay: pay, First: f, Events: ev, Tail: tail})
 				}
+				// the same script on a partial-payment quote (another pay call of the backend interface)
+				out = append(out, script{Pay: pay, First: f, Events: ev, MPP: true})
 			})
 		}
 	}
@@ -227,7 +234,7 @@ func (r *runner) world() *world.World {
 			r.w.Close()
 		}
 		r.seedNo++
-		r.w = world.New(r.t, world.Config{CaseSeed: 5000 + r.seedNo, FeeMode: lnmodel.FeePercent, FeePpk: 100, ViaCLN: r.viaCLN, ViaLND: r.viaLND, WithServer: r.viaHTTP})
+		r.w = world.New(r.t, world.Config{CaseSeed: 5000 + r.seedNo, FeeMode: lnmodel.FeePercent, FeePpk: 100, MPP: true, ViaCLN: r.viaCLN, ViaLND: r.viaLND, WithServer: r.viaHTTP})
 		r.used = 0
 	}
 	r.used++
@@ -299,7 +306,11 @@ func (r *runner) run(sc script) (viol []violation, lookups int) {
 	ys := []string{p1.Y}
 	_ = p2
 	inv := w.Net.ExternalInvoice(20_000)
-	q, err := w.RequestMeltQuote(inv.Request, 0)
+	var part uint64
+	if sc.MPP {
+		part = 12_000
+	}
+	q, err := w.RequestMeltQuote(inv.Request, part)
 	if err != nil {
 		r.t.Fatalf("setup: %v", err)
 	}
@@ -489,6 +500,9 @@ func TestScripts(t *testing.T) {
 		}
 		rec.Class(fmt.Sprintf("lookups_consumed=%d", lookups))
 		rec.Class("pay=" + sc.Pay.String())
+		if sc.MPP {
+			rec.Class("script_on_partial_payment_quote")
+		}
 		if i%397 == 0 {
 			rec.Sample("script", sc.String())
 		}
